@@ -157,7 +157,7 @@ func (s *busSys) pushPull(i, j int) {
 }
 
 var c19Alphabet = []string{
-	"n0: create small silence", "n1: create small silence", "n0: create oversized silence (900B comment)", "n2: create oversized silence",
+	"n0: create small silence", "n1: create small silence", "n0: create oversized silence (900B comment)", "n2: create oversized silence (1600B comment, larger than a gossip packet)",
 	"n1: create silence whose wrapped broadcast is just over the size threshold", "n0: nflog entry", "n2: nflog entry",
 	"gossip round n0 -> all", "gossip round n0 -> n1 only (n2 loses it)", "gossip round n1 -> all, every packet duplicated", "gossip round n2 -> all",
 	"reliable link n0->n2 down", "reliable link n0->n2 up", "reliable links of n2 down (both directions)", "all reliable links up",
@@ -219,7 +219,7 @@ func c19Run(t *testing.T, h []int) (res seqx.Result) {
 			case 2:
 				s.setSilence(0, 900)
 			case 3:
-				s.setSilence(2, 900)
+				s.setSilence(2, 1600)
 			case 4:
 				s.setSilence(1, 560) // inner message <= 700 bytes, wrapped Part > 700
 			case 5:
@@ -369,7 +369,7 @@ func c19Run(t *testing.T, h []int) (res seqx.Result) {
 		}
 		for i := 0; i < 3; i++ {
 			s.setSilence(i, 10)
-			s.setSilence(i, 900)
+			s.setSilence(i, 900+350*i) // 900B, 1250B and 1600B: the last one would not even fit a gossip packet
 			s.logNf(i)
 		}
 		all := []int{0, 1, 2, 3}
